@@ -153,6 +153,8 @@ def monitor_poll(case, rc, out, err):
             last_op = w[1:]
             if w[1] == "advance":
                 now += int(w[2])
+            if w[1] in ("stop", "close"):
+                cur[int(w[2])] = None          # from the moment the call is made
             continue
         if w[0] == "stat":
             c, p = int(w[1][1:]), int(w[2][1:])
@@ -359,9 +361,19 @@ def shrink(ctx, exe, case, sig, checker):
     return cur
 
 
+def model_batch(ctx, dmode, outs):
+    """one driver process for a whole batch: `reset` separates the programs"""
+    text = "".join("reset\n" + model_input(o) for o in outs)
+    parts = ctx.driver([dmode], text).split("=== reset\n")[1:]
+    return [p.splitlines() for p in parts]
+
+
 def run_cases(ctx, exe, cases, label, checker, features, mode, corr_name):
     with ThreadPoolExecutor(NCPU) as ex:
-        res = list(ex.map(lambda c: checker(ctx, exe, c), cases))
+        res = list(ex.map(lambda c: checker(ctx, exe, c, False), cases))
+    good = [(c, out) for c, (r, out) in zip(cases, res) if r is None]
+    mods = model_batch(ctx, "c17" + mode, [o for _, o in good]) if good else []
+    mod_of = {id(c): m for (c, _), m in zip(good, mods)}
     for c, (r, out) in zip(cases, res):
         ctx.count()
         if isinstance(r, Bad):
@@ -371,8 +383,13 @@ def run_cases(ctx, exe, cases, label, checker, features, mode, corr_name):
             small = shrink(ctx, exe, c, r.sig, checker)
             ctx.violation(r.sig, f"C17 ({label}): {r.what}", {"mode": mode, "ops": small})
             return False
-        if r is not None:
-            ctx.broken_correspondence(corr_name, f"{r[1]} in program {c}")
+        impl = [l for l in out.splitlines() if not l.startswith("#")]
+        mod = mod_of.get(id(c))
+        if mod is None or impl != mod:
+            mod = mod or []
+            k = next((i for i in range(min(len(impl), len(mod))) if impl[i] != mod[i]), min(len(impl), len(mod)))
+            ctx.broken_correspondence(corr_name, f"line {k}: impl `{impl[k] if k < len(impl) else None}` model "
+                                                 f"`{mod[k] if k < len(mod) else None}` in program {c}")
             ctx.notes.setdefault("diff_cases", []).append(c)
             return False
         ctx.validated()
